@@ -4,6 +4,8 @@ import (
 	"bytes"
 	"fmt"
 	"io"
+	"runtime"
+	"sync"
 
 	proto "github.com/golang/protobuf/proto"
 	"github.com/openacid/low/pbcmpl"
@@ -29,12 +31,13 @@ func init() {
 		Flavours: releaseThenGo126,
 		Required: []string{"kind/legacy", "kind/legacy+version", "kind/BytesValue", "kind/StringValue", "kind/BytesValue+version",
 			"body/0", "body/1", "body/70000", "ver/len=0", "ver/len=16", "ver/interior-NUL", "chunk/whole", "chunk/one-byte", "chunk/random", "chunk/data+EOF", "chunk/zero-reads",
-			"stream/frames=1", "stream/frames>=4", "stream/eof-after-last", "target/reused", "target/reused-for-empty-body", "stream/frame>1MiB-followed-by-frames", "reader/std-type", "writer/std-type"},
+			"stream/frames=1", "stream/frames>=4", "stream/eof-after-last", "target/reused", "target/reused-for-empty-body", "stream/frame>1MiB-followed-by-frames", "reader/std-type", "writer/std-type", "concurrent/own-writers-and-readers"},
 		Families: func(c *mon.Config) []mon.Family {
 			return []mon.Family{
 				{Name: "frames", N: pbNKinds * (len(c06BodyLens) + 1) * 17 * c.Pick(2, 100), Run: c06Frames},
 				{Name: "streams", Env: 10, N: c.Pick(20000, 3000000), Run: c06Streams},
 				{Name: "reused-target", Env: 5, N: pbNKinds * chNModes * c.Pick(10, 2000), Run: c06Reuse},
+				{Name: "concurrent-calls", Env: 3, N: c.Pick(300, 30000), Run: c06Concurrent},
 				{Name: "big-body-streams", Env: 2, N: pbNKinds * 3 * 4 * c.Pick(1, 6), Run: c06BigStreams},
 			}
 		},
@@ -199,6 +202,81 @@ func c06CheckStream(w *mon.W, cases []pbCase, frames [][]byte, mode int, reuse b
 		return false
 	}
 	return true
+}
+
+// yieldWriter / yieldReader hand the processor to another goroutine before they touch the bytes.
+type yieldWriter struct{ buf bytes.Buffer }
+
+func (y *yieldWriter) Write(p []byte) (int, error) {
+	runtime.Gosched()
+	return y.buf.Write(p)
+}
+
+type yieldReader struct{ r *bytes.Reader }
+
+func (y *yieldReader) Read(p []byte) (int, error) {
+	runtime.Gosched()
+	return y.r.Read(p)
+}
+
+// c06Concurrent: four goroutines marshal and unmarshal DIFFERENT messages through their OWN writers and readers
+// at the same time (the writers yield before taking the bytes). Each call is an input of the property on its own;
+// state shared between calls inside the package shows as a frame that differs from the model.
+func c06Concurrent(w *mon.W, idx int) {
+	r := w.Rng
+	const G = 4
+	cases := make([]pbCase, G)
+	exp := make([][]byte, G)
+	for g := range cases {
+		ver := ""
+		switch r.Intn(4) {
+		case 0:
+			ver = "1.0.0"
+		case 1:
+			ver = pbVersion(r, 1+r.Intn(16))
+		}
+		cases[g] = pbCase{Kind: r.Intn(pbNKinds), Payload: pbPayload(r, r.Pick(0, 1, 33, 200, 1000)+7*g), Ver: ver}
+		exp[g] = cases[g].frame()
+	}
+	bad := make([]mon.D, G)
+	var wg sync.WaitGroup
+	for g := 0; g < G; g++ {
+		wg.Add(1)
+		go func(g int) {
+			defer wg.Done()
+			defer func() {
+				if p := recover(); p != nil {
+					bad[g] = mon.D{"goroutine": g, "panic": fmt.Sprint(p)}
+				}
+			}()
+			c := cases[g]
+			msg := c.msg()
+			for k := 0; k < 30; k++ {
+				yw := &yieldWriter{}
+				n, err := pbcmpl.Marshal(yw, msg)
+				if err != nil || int(n) != len(exp[g]) || !bytes.Equal(yw.buf.Bytes(), exp[g]) {
+					bad[g] = mon.D{"goroutine": g, "round": k, "call": "Marshal", "kind": pbKindNames[c.Kind], "version": fmt.Sprintf("%q", c.Ver), "returned_n": n, "err": errStr(err),
+						"got_header": fmt.Sprintf("%x", yw.buf.Bytes()[:min(32, yw.buf.Len())]), "expected_header": fmt.Sprintf("%x", exp[g][:32]), "got_len": yw.buf.Len(), "expected_len": len(exp[g])}
+					return
+				}
+				into := c.empty()
+				n2, ver, err2 := pbcmpl.Unmarshal(&yieldReader{bytes.NewReader(exp[g])}, into)
+				if err2 != nil || int(n2) != len(exp[g]) || ver != c.expVer() || !c.sameMsg(into) {
+					bad[g] = mon.D{"goroutine": g, "round": k, "call": "Unmarshal", "kind": pbKindNames[c.Kind], "returned_n": n2, "returned_version": fmt.Sprintf("%q", ver), "expected_version": fmt.Sprintf("%q", c.expVer()), "err": errStr(err2)}
+					return
+				}
+			}
+		}(g)
+	}
+	wg.Wait()
+	w.Eval(2 * 30 * G)
+	for g := range bad {
+		if bad[g] != nil {
+			w.Fail("concurrent-calls-on-different-messages-interfere/"+fmt.Sprint(bad[g]["call"]), bad[g])
+			return
+		}
+	}
+	w.Bucket("concurrent/own-writers-and-readers")
 }
 
 func c06Frames(w *mon.W, idx int) {
